@@ -36,6 +36,9 @@ class Obj {
   }
   long serial;
 };
+// a MATLAB class name longer than any plausible fixed-size buffer (the RTTI path copies it out of the registry)
+static const char *const DERIVED_MATLAB_NAME =
+    "gtsamunstable.partition.DerivedObjectWithAnUnusuallyLongMatlabClassNameToOutgrowFixedBuffers0123456789";
 class Derived : public Obj {
  public:
   double extra = 1.0;
@@ -60,7 +63,7 @@ static uint64_t g_next_object_id = 1;
 // what the generated proxy constructor + collectorInsertAndMakeBase/upcastFromVoid do
 static int matlab_side(int nlhs, mxArray *plhs[], int nrhs, mxArray *prhs[], const char *name) {
   std::string cls = name;
-  if (cls == "Obj" || cls == "Derived") {
+  if (cls == "Obj" || cls == DERIVED_MATLAB_NAME) {
     if (nrhs < 2 || mxGetClassID(prhs[0]) != mxUINT64_CLASS ||
         *reinterpret_cast<uint64_t *>(mxGetData(prhs[0])) != ptr_constructor_key)
       mexErrMsgTxt("Arguments do not match any overload of constructor");
@@ -130,7 +133,7 @@ static void install_rtti() {
   int f1 = mxAddField(reg, typeid(Obj).name());
   mxSetFieldByNumber(reg, 0, f1, mxCreateString("Obj"));
   int f2 = mxAddField(reg, typeid(Derived).name());
-  mxSetFieldByNumber(reg, 0, f2, mxCreateString("Derived"));
+  mxSetFieldByNumber(reg, 0, f2, mxCreateString(DERIVED_MATLAB_NAME));
   mexPutVariable("global", "gtsamwrap_rttiRegistry", reg);
   mxDestroyArray(reg);
 }
